@@ -126,19 +126,36 @@ theorem targets_cover :
 
 /-! ## constants = kernel UAPI -/
 
+/-- what `consts_equal_uapi` says about one target row -/
+def ConstsEqualUapi (t : Target) : Prop :=
+  (∀ p ∈ pairing, (uapi.lookup p.1).isSome = true ∧
+      t.unix.lookup p.1 = uapi.lookup p.1 ∧ t.root.lookup p.2 = uapi.lookup p.1) ∧
+  (kernelENOSYS t).isSome = true ∧
+  t.unix.lookup "ENOSYS" = kernelENOSYS t ∧ t.root.lookup "errnoENOSYS" = kernelENOSYS t ∧
+  t.nonNat = []
+
+instance (t : Target) : Decidable (ConstsEqualUapi t) := by unfold ConstsEqualUapi; infer_instance
+
 /-- **Constants equal the kernel's UAPI values on every target.**  For every target of the list on
     which the library builds: each of the eight actions, the two filter flags, the prctl option, the
     two `seccomp(2)` operations and `EPERM` has — both in `internal/unix` (taken from x/sys/unix on
     Linux, from the hand-maintained copy elsewhere) and in the root package's `constants.go` — exactly
     the value the installed kernel headers give; `ENOSYS` has the value of the target's kernel
-    (38 = the header value; 89 on linux/mips*). -/
-theorem consts_equal_uapi :
-    ∀ t ∈ targets, t.libBuilds = true →
-      (∀ p ∈ pairing, (uapi.lookup p.1).isSome = true ∧
-          t.unix.lookup p.1 = uapi.lookup p.1 ∧ t.root.lookup p.2 = uapi.lookup p.1) ∧
-      (kernelENOSYS t).isSome = true ∧
-      t.unix.lookup "ENOSYS" = kernelENOSYS t ∧ t.root.lookup "errnoENOSYS" = kernelENOSYS t ∧
-      t.nonNat = [] := by
+    (38 = the header value; 89 on linux/mips*); and no constant of these packages is negative or
+    non-integer. -/
+theorem consts_equal_uapi : ∀ t ∈ targets, t.libBuilds = true → ConstsEqualUapi t := by
+  decide +kernel
+
+/-- the statement discriminates: the darwin row with `SECCOMP_RET_TRAP` changed in the hand-maintained
+    copy only (so that it differs from Linux) does not satisfy it, nor does one with MIPS' `ENOSYS` -/
+example : ¬ ConstsEqualUapi { t_darwin_arm64 with
+    unix := t_darwin_arm64.unix.map (fun p => if p.1 = "SECCOMP_RET_TRAP" then (p.1, 0x20000) else p) } := by
+  decide +kernel
+example : ¬ ConstsEqualUapi { t_darwin_arm64 with
+    root := t_darwin_arm64.root.map (fun p => if p.1 = "errnoENOSYS" then (p.1, 89) else p) } := by
+  decide +kernel
+/-- … while 89 is exactly what is required of (and found on) linux/mips -/
+example : ConstsEqualUapi t_linux_mips ∧ t_linux_mips.root.lookup "errnoENOSYS" = some 89 := by
   decide +kernel
 
 /-- The record offsets and sizes the compiler uses are those of `struct seccomp_data` in
@@ -236,18 +253,31 @@ theorem model_offsets_agree :
 
 /-! ## stubs and file selection -/
 
+/-- what `stubs_inert` says about one target row -/
+def StubsInert (t : Target) : Prop :=
+  "seccomp_unsupported.go" ∈ t.files ∧ "seccomp_linux.go" ∉ t.files ∧
+  (∀ n ∈ entryPoints, ∃ f ∈ t.funcs, f.name = n ∧ f.file = "seccomp_unsupported.go" ∧ f.hasCall = false) ∧
+  (∃ f ∈ t.funcs, f.name = "Supported" ∧ f.ret = "false") ∧
+  t.stubOtherDecls = [] ∧ t.stubImports = []
+
+instance (t : Target) : Decidable (StubsInert t) := by unfold StubsInert; infer_instance
+
 /-- **Stubs are inert.**  Every non-Linux target selects `seccomp_unsupported.go` and not
     `seccomp_linux.go`; `Supported`, `SetNoNewPrivs` and `LoadFilter` are defined there; none of the
     three bodies contains a call expression (no function or method call, conversion, `go` or `defer`),
     so no system call can be made; `Supported` is `return false` (the constant the type checker
     computes); and the file declares nothing else (no `init`, no initialised variable that could run
-    code at start-up). -/
-theorem stubs_inert :
-    ∀ t ∈ targets, isLinux t = false →
-      "seccomp_unsupported.go" ∈ t.files ∧ "seccomp_linux.go" ∉ t.files ∧
-      (∀ n ∈ entryPoints, ∃ f ∈ t.funcs, f.name = n ∧ f.file = "seccomp_unsupported.go" ∧ f.hasCall = false) ∧
-      (∃ f ∈ t.funcs, f.name = "Supported" ∧ f.ret = "false") ∧
-      t.stubOtherDecls = [] ∧ t.stubImports = [] := by
+    code at start-up) and imports nothing. -/
+theorem stubs_inert : ∀ t ∈ targets, isLinux t = false → StubsInert t := by
+  decide +kernel
+
+/-- the statement discriminates: a `Supported` stub returning `true`, or a `LoadFilter` stub that calls
+    something, does not satisfy it -/
+example : ¬ StubsInert { t_darwin_arm64 with
+    funcs := t_darwin_arm64.funcs.map (fun f => if f.name = "Supported" then { f with ret := "true" } else f) } := by
+  decide +kernel
+example : ¬ StubsInert { t_darwin_arm64 with
+    funcs := t_darwin_arm64.funcs.map (fun f => if f.name = "LoadFilter" then { f with hasCall := true } else f) } := by
   decide +kernel
 
 /-- **Linux selects the real loader.**  Every Linux target (GOOS linux or android) selects
